@@ -186,6 +186,9 @@ func mkLoggers(ws []*recWriter, syncW bool, dest string) []*zerolog.Logger {
 		w = zerolog.ConsoleWriter{Out: ws[0], NoColor: true, TimeLocation: time.UTC}
 	case "multi":
 		w = zerolog.MultiLevelWriter(ws[0], ws[1])
+	case "multisame":
+		// two destinations of the fan-out end in the same (non-thread-safe) writer, e.g. a file opened once
+		w = zerolog.MultiLevelWriter(ws[0], ws[0])
 	}
 	if syncW {
 		lastSync = zerolog.SyncWriter(w)
@@ -518,7 +521,7 @@ func TestDFS(t *testing.T) {
 	for _, w := range whats() {
 		switch w {
 		case "log":
-			cfgs = append(cfgs, cfg{Case{What: w, T: 2, K: 2, Sync: true, ErrAt: 2}, b})
+			cfgs = append(cfgs, cfg{Case{What: w, T: 2, K: 2, Sync: true, ErrAt: 2}, b}, cfg{Case{What: w, T: 2, K: 2, Sync: true, Dest: "multisame"}, b})
 			cfgs = append(cfgs, cfg{Case{What: w, T: 2, K: 2, Sync: true, PanicAt: 1}, b}, cfg{Case{What: w, T: 2, K: 2, Sync: true, PanicAt: 2}, b}, cfg{Case{What: w, T: 2, K: 2, PanicAt: 2}, b})
 			cfgs = append(cfgs, cfg{Case{What: w, T: 2, K: 2, Dest: "console"}, b}, cfg{Case{What: w, T: 2, K: 2, Dest: "multi"}, b})
 			cfgs = append(cfgs, cfg{Case{What: w, T: 2, K: 1}, 3}, cfg{Case{What: w, T: 2, K: 2}, b}, cfg{Case{What: w, T: 2, K: 2, Sync: true}, b}, cfg{Case{What: w, T: 3, K: 1}, b}, cfg{Case{What: w, T: 2, K: 3}, b})
@@ -575,7 +578,7 @@ func TestRapidSchedules(t *testing.T) {
 		c.Sync = rapid.Bool().Draw(rt, "sync")
 		c.Explicit = c.What == "trigger" && rapid.IntRange(0, 2).Draw(rt, "explicit") == 0
 		if c.What == "log" {
-			c.Dest = rapid.SampledFrom([]string{"", "", "console", "multi"}).Draw(rt, "dest")
+			c.Dest = rapid.SampledFrom([]string{"", "", "console", "multi", "multisame"}).Draw(rt, "dest")
 			if c.Dest == "" && rapid.IntRange(0, 3).Draw(rt, "panics") == 0 {
 				c.PanicAt = rapid.IntRange(1, 3).Draw(rt, "panicat")
 			} else if c.Dest != "console" && rapid.IntRange(0, 3).Draw(rt, "eagain") == 0 {
